@@ -12,3 +12,44 @@ Print Assumptions C04_format_independent.
 Theorem C04_numbers_exact : forall f v, normalize (arrives f v) = Ok v.
 Proof. exact normalize_arrives. Qed.
 Print Assumptions C04_numbers_exact.
+
+(* ---- the YAML arrival path: yaml.go's translation of yaml.v3 node trees (Model/Yaml.v) ---- *)
+From Bkl Require Import Model.Yaml Proofs.MapsProofs Proofs.EscapeProofs Proofs.YamlProofs.
+Local Open Scope string_scope.
+
+(* a value written as plain YAML nodes (no merge keys) arrives as exactly that value *)
+Theorem C04_yaml_plain_nodes : forall v, swf v -> nomerge v -> ytranslate (ynode_of v) = Ok v.
+Proof. exact ytranslate_ynode_of. Qed.
+Print Assumptions C04_yaml_plain_nodes.
+
+(* an alias denotes what its anchor denotes *)
+Theorem C04_yaml_alias : forall t, ytranslate (YAlias t) = ytranslate t.
+Proof. exact ytranslate_YAlias. Qed.
+Print Assumptions C04_yaml_alias.
+
+(* a mapping with a merge key over a list of mappings is its expanded form: local keys win, then the
+   sources in the order written (the earlier one wins), wherever the merge key stands among the entries *)
+Theorem C04_yaml_merge_list : forall kvs lvals ms,
+  locals_of ytranslate kvs lvals -> merges_of ytranslate kvs [VList (map VMap ms)] ->
+  NoDup (keys lvals) -> Forall (fun m => NoDup (keys m)) ms ->
+  exists r, ytranslate (YMap kvs) = Ok (VMap r) /\
+            forall k, lookup k r = match lookup k lvals with Some v => Some v | None => first_lookup k ms end.
+Proof. exact ymap_merge_spec. Qed.
+Print Assumptions C04_yaml_merge_list.
+
+Theorem C04_yaml_merge_single : forall kvs lvals m,
+  locals_of ytranslate kvs lvals -> merges_of ytranslate kvs [VMap m] ->
+  NoDup (keys lvals) -> NoDup (keys m) ->
+  exists r, ytranslate (YMap kvs) = Ok (VMap r) /\
+            forall k, lookup k r = match lookup k lvals with Some v => Some v | None => lookup k m end.
+Proof. exact ymap_merge_single_spec. Qed.
+Print Assumptions C04_yaml_merge_single.
+
+(* the hypotheses are met:  {q: 9, <<: [*a, *b], z: "loc"}  with a = {p: 1, q: 2}, b = {p: 5, r: 6} *)
+Example C04_yaml_merge_example :
+  let a := YMap [(YScalar "!!str" "p", YScalar "!!int" "1"); (YScalar "!!str" "q", YScalar "!!int" "2")] in
+  let b := YMap [(YScalar "!!str" "p", YScalar "!!int" "5"); (YScalar "!!str" "r", YScalar "!!int" "6")] in
+  ytranslate (YMap [(YScalar "!!str" "q", YScalar "!!int" "9"); (YScalar "!!merge" "<<", YSeq [YAlias a; YAlias b]);
+                    (YScalar "!!str" "z", YScalar "!!str" "loc")])
+  = Ok (VMap [("p", VInt 1); ("q", VInt 9); ("r", VInt 6); ("z", VStr "loc")]).
+Proof. vm_compute. reflexivity. Qed.
